@@ -750,7 +750,9 @@ class JacobianAssembly:
         (dfun_dx, dfun_dy) = ({}, {})
         for fun in functions:
             dfun_dx[fun] = self.assemble_jacobian([fun], variables)
-            dfun_dy[fun] = self.assemble_jacobian([fun], couplings_and_res)
+            # The unknowns of the linear system are the couplings and the states:
+            # the residuals only name its equations.
+            dfun_dy[fun] = self.assemble_jacobian([fun], couplings_and_states)
 
         mode = self._get_derivation_mode(mode, n_variables, n_functions)
 
